@@ -88,7 +88,7 @@ fn cmd_check(args: &[String]) -> i32 {
         if failure.is_some() {
             break;
         }
-        for (cfg, depth) in w.enum_configs(tier) {
+        for (cfg, depth) in all_enum_configs(*w, tier) {
             if failure.is_some() {
                 break;
             }
@@ -98,7 +98,7 @@ fn cmd_check(args: &[String]) -> i32 {
             }
             let params = EnumParams { max_depth: depth.min(b.enum_depth), max_states: b.enum_max_states };
             let (rep, f) = run_enum(*w, prop, &cfg, &params, &mut stats);
-            stats.enum_reports.push(json!({"world": w.name(), "config": w.cfg_desc(&cfg), "joint_states": rep.states, "transitions": rep.transitions, "depth": rep.depth, "fixpoint": rep.fixpoint, "depth_bound": params.max_depth}));
+            stats.enum_reports.push(json!({"world": w.name(), "config": w.describe(&cfg), "joint_states": rep.states, "transitions": rep.transitions, "depth": rep.depth, "fixpoint": rep.fixpoint, "depth_bound": params.max_depth}));
             failure = f;
         }
     }
@@ -112,7 +112,7 @@ fn cmd_check(args: &[String]) -> i32 {
         if b.random_cases == 0 {
             continue;
         }
-        let cfgs = w.configs(tier);
+        let cfgs = all_configs(*w, tier);
         let per_cfg = (((b.random_cases as f64) * scale) as u64 / cfgs.len().max(1) as u64).max(16);
         let params = RandomParams { cases_per_cfg: per_cfg, max_len: b.max_len, seed };
         failure = run_random(*w, prop, &cfgs, &params, &mut stats, true);
@@ -159,7 +159,7 @@ fn cmd_check(args: &[String]) -> i32 {
             let path = format!("{}/{}-{:016x}.json", dir, prop, h as u64);
             std::fs::write(&path, serde_json::to_string_pretty(&doc).unwrap()).expect("write replay");
             finish(&vdir, prop, tier, seed, &stats, t0, 1, replayed);
-            println!("violation: {} {} ({} driver, {}): {}", f.violation.prop, f.violation.kind, f.driver, w.cfg_desc(&f.cfg), f.violation.detail);
+            println!("violation: {} {} ({} driver, {}): {}", f.violation.prop, f.violation.kind, f.driver, w.describe(&f.cfg), f.violation.detail);
             let specs = w.specs(&f.cfg);
             println!("history: {}", f.ops.iter().map(|o| op_to_string(&specs, o)).collect::<Vec<_>>().join(" "));
             println!("VIOLATION property={} replay={}", prop, path);
